@@ -1,57 +1,64 @@
-(** Model of /repo/bitmap/fmt.go (Fmt, intFmt, intSize): the same byte loop,
-    [bits.Reverse8] and [fmt.Sprintf("%08b")] given their definitional models
-    (DESIGN section 3, external code), [strings.Join].  A string is a list of bytes. *)
-From Coq Require Import ZArith List.
-From Low Require Import Lib.MachInt Lib.Bits Lib.Bytes.
+(** Model of /repo/bitmap/fmt.go: [Fmt], [intFmt], [intSize].
+    A Go value handed to [Fmt] is described by (kind, is_slice, values):
+    kind 0..7 = int8, uint8, int16, uint16, int32, uint32, int64, uint64; any
+    other kind stands for a non-integer type (the harness uses [string]), for
+    which [intSize] panics.  Strings are byte lists.  [uint64(i)] of a signed
+    value is its two's complement ([u64]).  [math/bits.Reverse8],
+    [fmt.Sprintf("%08b", _)] and [strings.Join] are Go's library, restated here. *)
+From Coq Require Import ZArith List Bool.
+From Low Require Import Lib.MachInt Lib.Bits Lib.BitSeq Lib.Lex Lib.Bytes Model.BitmapMask.
 Import ListNotations.
 Open Scope Z_scope.
 
-(** [strings.Join(parts, sep)] *)
-Fixpoint join (sep : list Z) (parts : list (list Z)) : list Z :=
-  match parts with
+(** [math/bits.Reverse8] *)
+Definition rev8 (b : Z) : Z := val_msb (bits 8 b).
+
+(** [fmt.Sprintf("%08b", c)] for a uint8: 8 binary digits, most significant first; '0' = 48, '1' = 49 *)
+Definition fmt08b (c : Z) : list Z := map (fun b : bool => if b then 49 else 48) (byte_bits c).
+
+(** [strings.Join(l, sep)] *)
+Fixpoint strings_Join (l : list (list Z)) (sep : list Z) : list Z :=
+  match l with
   | [] => []
-  | [p] => p
-  | p :: rest => p ++ sep ++ join sep rest
+  | x :: t => match t with [] => x | _ => x ++ sep ++ strings_Join t sep end
   end.
 
-(** [bits.Reverse8(b)]: bit i of b becomes bit 7-i ([bits 8 b] is LSB first, [val_msb] reads MSB first) *)
-Definition reverse8 (b : Z) : Z := val_msb (bits 8 b).
-
-(** [fmt.Sprintf("%b", x)], x >= 0: binary digits, most significant first, no leading zeros, "0" for 0 *)
-Definition digit (b : bool) : Z := if b then 49 else 48.
-Definition fmt_b (x : Z) : list Z :=
-  if x =? 0 then [48] else map digit (rev (bits (Z.to_nat (Z.log2 x + 1)) x)).
-(** [%08b]: left-padded with '0' to width 8 (never truncated) *)
-Definition pad0 (width : nat) (s : list Z) : list Z := repeat 48 (width - length s) ++ s.
-Definition sprintf_08b (x : Z) : list Z := pad0 8 (fmt_b x).
-
-(** [intSize]: the size in bytes is given by the caller's type; the value is [uint64(i)]
-    (sign-extending for the signed kinds, i.e. the value modulo 2^64) *)
-Definition intSize_ok (sz : Z) : bool := (sz =? 1) || (sz =? 2) || (sz =? 4) || (sz =? 8).
-
-(** [sz, v := intSize(i)] ([None] = "not a int type" panic), then
-    [for i := 0; i < sz; i++ { b := uint8(v >> uint(i*8)); s := Sprintf("%08b", Reverse8(b)); rst = append(rst, s) }
-     return strings.Join(rst, " ")] *)
-Definition intFmt (sz : Z) (x : Z) : option (list Z) :=
-  if intSize_ok sz then
-    let v := u64 x in
-    Some (join [32] (map (fun i => sprintf_08b (reverse8 (u8 (shr64 v (Z.of_nat i * 8))))) (seq 0 (Z.to_nat sz))))
+(** [intSize]: byte size of the integer types; [None] = panic("not a int type") *)
+Definition intSize (kind : Z) : option Z :=
+  if (kind =? 0) || (kind =? 1) then Some 1
+  else if (kind =? 2) || (kind =? 3) then Some 2
+  else if (kind =? 4) || (kind =? 5) then Some 4
+  else if (kind =? 6) || (kind =? 7) then Some 8
   else None.
 
-Fixpoint all_some {A} (l : list (option A)) : option (list A) :=
-  match l with
-  | [] => Some []
-  | None :: _ => None
-  | Some x :: t => match all_some t with Some r => Some (x :: r) | None => None end
+(** [for i := 0; i < sz; i++ { b := uint8(v >> uint(i*8)); rst = append(rst, Sprintf("%08b", Reverse8(b))) };
+     return strings.Join(rst, " ")] *)
+Definition intFmt (kind : Z) (x : Z) : option (list Z) :=
+  match intSize kind with
+  | None => None
+  | Some sz =>
+      let v := u64 x in
+      Some (strings_Join (map (fun i => fmt08b (rev8 (u8 (shr64 v (i * 8))))) (idx (Z.to_nat sz))) [32])
   end.
 
-(** [Fmt(x)]: x a slice ([isslice]; every element goes through [intFmt], so an empty slice of any element
-    type gives "") or a single value ([xs = [x]]); [sz] = the byte size of the integer kind, anything
-    else stands for a non-integer type *)
-Definition Fmt (sz : Z) (isslice : bool) (xs : list Z) : option (list Z) :=
-  if isslice then
-    match all_some (map (intFmt sz) xs) with
-    | Some parts => Some (join [44] parts)
+Fixpoint all_fmt (kind : Z) (vals : list Z) : option (list (list Z)) :=
+  match vals with
+  | [] => Some []
+  | x :: t => match intFmt kind x with
+              | None => None
+              | Some s => match all_fmt kind t with None => None | Some r => Some (s :: r) end
+              end
+  end.
+
+(** [if v.Kind() == reflect.Slice { for i < n { rst = append(rst, intFmt(v.Index(i))) }; return Join(rst, ",") }
+     else { return intFmt(x) }] *)
+Definition Fmt (kind : Z) (is_slice : bool) (vals : list Z) : option (list Z) :=
+  if is_slice then
+    match all_fmt kind vals with
     | None => None
+    | Some rst => Some (strings_Join rst [44])
     end
-  else match xs with [x] => intFmt sz x | _ => None end.
+  else match vals with
+       | [x] => intFmt kind x
+       | _ => None          (* not a call the harness makes *)
+       end.
